@@ -334,8 +334,13 @@ def _execute(sc, root, want_texts):
                 m, status = _compile_inproc(src, opt)
                 ok = m is not None
                 if ok:
-                    with open(os.path.join(store, name), "wb") as f:
-                        pickle.dump(m, f)
+                    try:
+                        data = pickle.dumps(m)
+                    except Exception as e:  # the accepted program cannot be serialised
+                        ok, status = False, f"{type(e).__name__}: {str(e)[:80]}"
+                    else:
+                        with open(os.path.join(store, name), "wb") as f:
+                            f.write(data)
                 bump("writes_inproc")
                 log.add("write", name=name, src=sd, opt=opt, how="inproc", ok=ok)
                 code, err = (0 if ok else 1), status
@@ -345,12 +350,21 @@ def _execute(sc, root, want_texts):
             if not ok:
                 if ok_ref:
                     tail = (err or "").strip().splitlines()[-1:] if isinstance(err, str) else err
+                    # why it failed: the exception class that ended the writer (stderr's last line)
+                    cls = "exit-" + str(code)
+                    for line in reversed((err or "").strip().splitlines()):
+                        if line.startswith("STATS "):
+                            continue
+                        cls = line.split(":")[0].strip().split(".")[-1] or cls
+                        break
                     return done(
                         "violation",
                         "writer-failed",
                         f"step {si}: writing {name} ({st['how']}, -O{opt}, io {_io_class(st['io'])}, hash seed {st['hs']}) "
-                        f"failed (exit {code}, {tail}) although a fresh compilation accepts the program",
-                        finding_key="writer-failed",
+                        f"failed (exit {code}, {tail}) although a fresh compilation accepts the program "
+                        f"(source sha256[:10] {sd})",
+                        finding_key="writer-failed:" + cls,
+                        input_digest=sd,
                     )
                 bump("unaccepted_programs")
                 if st["how"] == "cli":
